@@ -281,6 +281,29 @@ pub fn drive(trace: &Trace, stats: &mut Stats, h: &mut dyn StepHandler) -> Vec<F
     findings
 }
 
+/// If every unit of the (fault-free) message addresses a mandated command, the list of them.
+pub fn pure_contrib(world: &World, s: &SendStep) -> Option<Vec<Contrib>> {
+    use crate::tree::{resolve, Resolved, H};
+    if !s.corrupt.is_empty() {
+        return None;
+    }
+    let mut level: Vec<usize> = Vec::new();
+    let mut v = Vec::new();
+    for (i, u) in s.msg.units.iter().enumerate() {
+        if u.hfault.is_some() || u.pfault.is_some() {
+            return None;
+        }
+        match resolve(&world.root, &level, i == 0, u.colon, &u.path) {
+            Resolved::Leaf { h: H::Contrib(c), level: l } => {
+                level = l;
+                v.push(c);
+            }
+            _ => return None,
+        }
+    }
+    Some(v)
+}
+
 pub fn describe_msg(s: &SendStep) -> String {
     format!("{:?}", B(World::message_bytes(s)))
 }
